@@ -27,6 +27,9 @@ func init() {
 }
 */
 
+// maxSnappyExpansion bounds decoded/encoded size of a valid snappy block (64/3, rounded up).
+const maxSnappyExpansion = 22
+
 type snappyBuf struct {
 	buf []byte
 }
@@ -83,6 +86,13 @@ func (se snappyEncoding) Unmarshal(buf []byte, msg drpc.Message) (err error) {
 	decodedLen, err := snappy.DecodedLen(buf)
 	if err != nil {
 		return
+	}
+	// The declared length comes from the peer. A snappy element of 3 bytes
+	// (copy with a 2-byte offset) emits at most 64 bytes, so a valid block never
+	// expands more than 64/3 times: anything above cannot decode and must not
+	// size the buffer.
+	if decodedLen > maxSnappyExpansion*len(buf) {
+		return snappy.ErrCorrupt
 	}
 
 	var unmarshalBuf *snappyBuf
